@@ -36,6 +36,7 @@ Definition c_error : Z := 13.
 
 Inductive tstate :=
 | TNew (prog : list packet)
+| TRun                                         (* executing right now (only inside a step) *)
 | TWait (cur : packet) (rest : list packet)
 | TSend (todo : list bytes) (rest : list packet)
 | TDone (code : Z).
@@ -139,21 +140,21 @@ Definition s_next (s : st) (l : slabel) : option st :=
   match l with
   | SStart t =>
       match get_task t s with
-      | Some (TNew prog) => Some (run_task t prog s)
+      | Some (TNew prog) => Some (run_task t prog (set_task t TRun s))
       | _ => None
       end
   | SResume t =>
       match get_task t s with
       | Some (TWait p rest) =>
           match fl_resume t (s_lock s) with
-          | Some l => Some (send_body t p rest (run_task t rest) (with_lock l s))
+          | Some l => Some (send_body t p rest (run_task t rest) (with_lock l (set_task t TRun s)))
           | None => None
           end
       | _ => None
       end
   | SWrite t =>
       match get_task t s with
-      | Some (TSend [] rest) => Some (run_task t rest (finish_send t s))
+      | Some (TSend [] rest) => Some (run_task t rest (finish_send t (set_task t TRun s)))
       | Some (TSend (pc :: more) rest) => Some (set_task t (TSend more rest) (write_piece pc s))
       | _ => None
       end
